@@ -515,3 +515,43 @@ let r_output x : M.output option =
           o_gstack = List.map r_ginstr (args gstack);
           o_fns = List.map r_block (args fns) }
   | _ -> raise (Bad "output")
+
+
+(* ---------------------------------------------------------------------------------------------- *)
+(* JSON trees of the Coq codec model, printed as JSON text.  Floats and chars are carried
+   opaquely by the model: they are printed as tagged objects and compared bit for bit. *)
+let json_quote (s : string) : string =
+  let b = Buffer.create (String.length s + 2) in
+  Buffer.add_char b '"';
+  String.iter
+    (fun c ->
+      match c with
+      | '"' -> Buffer.add_string b "\\\""
+      | '\\' -> Buffer.add_string b "\\\\"
+      | c when Char.code c < 32 -> Buffer.add_string b (Printf.sprintf "\\u%04x" (Char.code c))
+      | c -> Buffer.add_char b c)
+    s;
+  Buffer.add_char b '"';
+  Buffer.contents b
+
+let rec p_json (j : M.json) : string =
+  match j with
+  | M.JNull -> "null"
+  | M.JBool b -> if b then "true" else "false"
+  | M.JNum z -> Z.to_string (z_of_cz z)
+  | M.JFloat32 z -> "{\"$f32\":" ^ Z.to_string (z_of_cz z) ^ "}"
+  | M.JFloat64 z -> "{\"$f64\":" ^ Z.to_string (z_of_cz z) ^ "}"
+  | M.JStr s -> json_quote (ostr s)
+  | M.JChar z -> "{\"$char\":" ^ Z.to_string (z_of_cz z) ^ "}"
+  | M.JArr l -> "[" ^ String.concat "," (List.map p_json l) ^ "]"
+  | M.JObj fs -> "{" ^ String.concat "," (List.map (fun (k, v) -> json_quote (ostr k) ^ ":" ^ p_json v) fs) ^ "}"
+
+let p_codec (p : M.program) : string =
+  let ast = p_json (M.enc_program p) in
+  match M.run p with
+  | M.ROk o ->
+      "{\"ast\":" ^ ast ^ ",\"errors\":" ^ p_json (M.enc_errors o.M.o_errors) ^ ",\"gstack\":"
+      ^ p_json (M.enc_gstack o.M.o_gstack) ^ ",\"stacks\":["
+      ^ String.concat "," (List.map (fun b -> p_json (M.enc_stack b.M.b_ctx)) o.M.o_fns)
+      ^ "]}"
+  | _ -> "{\"ast\":" ^ ast ^ ",\"panic\":true}"
